@@ -337,13 +337,15 @@ class Var:
                     '<code>var</code> tag with a non-integer value.')
             if len(val) > size:
                 val = val[:size]
-                l_ = val.rfind(' ')
+                l_ = val.rfind(b' ' if isinstance(val, bytes) else ' ')
                 if l_ > size / 2:
                     val = val[:l_ + 1]
                 if 'etc' in args:
                     l_ = args['etc']
                 else:
                     l_ = '...'
+                if isinstance(val, bytes):
+                    l_ = l_.encode(self.encoding or 'utf-8')
                 val = val + l_
 
         if isinstance(val, TaintedString):
